@@ -162,7 +162,9 @@ DoAuthorize(st, op) ==
 (* Token endpoint: authorization_code                                       *)
 (* ======================================================================== *)
 VerifierOK(method, ver) ==           \* the presented verifier transforms to the stored challenge
-  ver = "right"
+  \* "plain_short": a plain challenge that is itself malformed (42 characters; the authorization endpoint does not
+  \* look at its shape): the only verifier equal to it is malformed, so no verifier redeems such a code
+  ver = "right" /\ method # "plain_short"
 PkceTokenErr(st, op, k) ==           \* pkce.Handler.HandleTokenEndpointRequest, given code k exists
   IF ~HasPKCE(st.S, k)
   THEN IF op.ver = "none"
@@ -318,10 +320,12 @@ DoIntrospect(st, op) ==
   LET callerOK ==
         CASE op.caller = "basic" -> ~Public(op.client)
           [] op.caller = "bearer" -> ATActive(st, op.n) /\ ~(op.kind = "at" /\ op.tok = op.n)
+          [] op.caller = "bearer_rt" -> FALSE    \* a refresh token is not a credential for this endpoint, however alive it is
           [] OTHER -> FALSE
       v == IntrospectVerdict(st, op.kind, op.tok, Range(op.need))
   IN IF ~callerOK THEN Fail(st, "request_unauthorized", "introspect_caller_unauthenticated")
-     ELSE Fail(st, v, IF v = "active" THEN "ok" ELSE "introspect_inactive")
+     ELSE IF v = "active" THEN Ret(st, [Out0 EXCEPT !.res = "active", !.note = "use=" \o op.kind])   \* the kind reported is the real one, whatever the hint
+     ELSE Fail(st, v, "introspect_inactive")
 
 (* ======================================================================== *)
 (* Device authorization grant                                               *)
@@ -422,7 +426,7 @@ DoClientChange(st, op) ==
   LET c == op.client IN
   Ret([st EXCEPT !.reg[c] =
          CASE op.field = "rm_scope" -> [@ EXCEPT !.scopes = @ \ {op.val}]
-           [] op.field = "rm_aud"   -> [@ EXCEPT !.aud = @ \ {op.val}]
+           [] op.field = "rm_aud"   -> [@ EXCEPT !.aud = IF op.val = "*" THEN {} ELSE @ \ {op.val}]   \* "*": the whole allow-list goes
            [] op.field = "rm_grant" -> [@ EXCEPT !.grants = @ \ {op.val}]
            [] OTHER -> InitReg[c]], Out0)
 
